@@ -22,6 +22,9 @@ type c06Prog struct {
 
 var c06Topologies = []string{"fork", "split", "splitjoin"}
 
+// chained topologies, drawn only for large configurations
+var c06Chains = []string{"splitjoinfork", "forksplitjoin"}
+
 // c06Small enumerates the complete small-configuration matrix of the property.
 func c06Small() []c06Prog {
 	var out []c06Prog
@@ -70,7 +73,11 @@ func (propC06) Run(ctx *Ctx, index int) {
 		p.ExtraReads = 1 + t.Choose(2)
 	} else {
 		t.Choose(1)
-		p.Topology = c06Topologies[t.Choose(3)]
+		if k := t.Choose(5); k < 3 {
+			p.Topology = c06Topologies[k]
+		} else {
+			p.Topology = c06Chains[k-3]
+		}
 		p.FanOut = t.Range(2, 8)
 		p.Capacity = t.Range(1, 4)
 		if ctx.Tier == "thorough" {
@@ -88,8 +95,11 @@ func (propC06) Run(ctx *Ctx, index int) {
 
 func runC06(ctx *Ctx, p *c06Prog) {
 	nOut := p.FanOut
-	if p.Topology == "splitjoin" {
+	switch p.Topology {
+	case "splitjoin":
 		nOut = 1
+	case "splitjoinfork", "forksplitjoin":
+		nOut = 2
 	}
 	got := make([][]int, nOut)
 	sawClose := make([]bool, nOut)
@@ -118,6 +128,15 @@ func runC06(ctx *Ctx, p *c06Prog) {
 		case "splitjoin":
 			mid := class.Split(&group, input, uint(p.FanOut))
 			outs = []col.QueueLike[int]{class.Join(&group, mid)}
+		case "splitjoinfork":
+			// Split(n) -> Join -> Fork(2): both readers must see the input sequence
+			mid := class.Split(&group, input, uint(p.FanOut))
+			outs = class.Fork(&group, class.Join(&group, mid), 2).AsArray()
+		case "forksplitjoin":
+			// Fork(2), each branch through Split(n) -> Join
+			for _, branch := range class.Fork(&group, input, 2).AsArray() {
+				outs = append(outs, class.Join(&group, class.Split(&group, branch, uint(p.FanOut))))
+			}
 		}
 		if len(outs) != nOut {
 			panic(fmt.Sprintf("topology returned %d outputs, expected %d", len(outs), nOut))
@@ -222,7 +241,7 @@ func runC06(ctx *Ctx, p *c06Prog) {
 		}
 		var want []int
 		switch p.Topology {
-		case "fork", "splitjoin":
+		case "fork", "splitjoin", "splitjoinfork", "forksplitjoin":
 			want = input
 		case "split":
 			for i := j; i < p.Length; i += p.FanOut {
